@@ -317,7 +317,10 @@ func (p *pipeline) settleAbsent(gone map[triple]bool, h0 uint64) (string, bool) 
 
 // ---- generators
 
-var tagChoices = []string{"urlprefix-/a", "urlprefix-/b", "urlprefix-foo.com/", "urlprefix-Foo.com/x", "urlprefix-/secure proto=https", "urlprefix-:7001 proto=tcp", "urlprefix-/w weight=0.5"}
+var tagChoices = []string{"urlprefix-/a", "urlprefix-/b", "urlprefix-foo.com/", "urlprefix-Foo.com/x", "urlprefix-/secure proto=https", "urlprefix-:7001 proto=tcp", "urlprefix-/w weight=0.5",
+	// a route that asks fabio to register an alias for it: with this pipeline's configuration (no usable
+	// registry.consul.register.addr) that registration fails, which is no reason not to route
+	"urlprefix-/al register=myalias"}
 
 func genInstance(t *rapid.T, w *mWorld) *fakeconsul.Instance {
 	node := rapid.SampledFrom([]string{"node1", "node2"}).Draw(t, "node")
